@@ -104,7 +104,7 @@ def mutate(frame, info, mut):
     else:
         raise ValueError(t)
     out = build_cpf([(at, ad), (dt, pre + new)], iface, tmo)
-    full = build_encap(cmd, sess, est, ctx8, out)
+    full = build_encap(cmd, sess, mut.get("encap_status", est), ctx8, out)
     if mut.get("then_truncate") is not None and mut["then_truncate"] < len(full):
         cut = full[:mut["then_truncate"]]
         full = cut[:2] + struct.pack("<H", len(cut) - 24) + cut[4:]
@@ -122,7 +122,7 @@ def classify(frame, cmd_expected):
     if est != 0:
         # an encapsulation error reply is header-only (Vol 2: no data follows an error status); a frame that
         # claims an error AND carries a body is not a well-formed reply
-        return {"cls": "encap", "status": est} if length == 0 else {"cls": "malformed", "why": "error-with-body"}
+        return {"cls": "encap", "status": est, "body": length > 0}
     if cmd == 0x65:
         return {"cls": "ok"}        # the status word of RegisterSession is the one in the header
     if cmd == 0x63:
@@ -503,6 +503,13 @@ def directed(tier, prop="C13"):
                 sc = base_scenario(kind, seed)
                 sc["fault"] = {"nth": nth, "mut": {"type": "encap", "status": s}}
                 out.append(sc)
+            # a non-zero encapsulation status together with a body that looks like success / partial transfer
+            for est in (0x03, 0x65, 0x10000):
+                for st in (0, 6):
+                    sc = base_scenario(kind, seed)
+                    sc["fault"] = {"nth": nth, "mut": {"type": "status", "status": st, "ext": [], "keep_data": True,
+                                                       "encap_status": est}}
+                    out.append(sc)
             # an error reply cut short at every byte around its status words
             for st, ext in ((0x05, []), (0xFF, [0x2105]), (0x1F, [1, 2])):
                 for at in range(38, 58):
@@ -575,6 +582,8 @@ def gen(seed, tier, prop="C13"):
         mut = {"type": "status", "status": st, "ext": ext, "keep_data": r.random() < 0.5}
         if r.random() < 0.25:
             mut["then_truncate"] = r.randrange(36, 60)
+        elif r.random() < 0.15:
+            mut["encap_status"] = r.choice((1, 3, 0x65, 0x10000, 0x80000000))
     elif c < 0.4 and kind in ("multiread", "multiwrite"):
         n = len(sc["op"]["texts"])
         mut = {"type": "multi", "statuses": [r.choice((0, 0, r.randrange(256))) for _ in range(n)]}
